@@ -146,7 +146,7 @@ func (g *c45Gen) leaf(name string, special bool) *c45Node {
 		n.Type = kit.Pick(g.rng, []data.NodeType{data.NodeTypeFifo, data.NodeTypeDev, data.NodeTypeCharDev, data.NodeTypeSocket})
 		g.nSpec++
 	case r <= 2:
-		n.Type, n.Link, n.Mode = data.NodeTypeSymlink, kit.Pick(g.rng, []string{"target", "../up/and/over", "/abs/olute", "ünï"}), 0o777
+		n.Type, n.Link, n.Mode = data.NodeTypeSymlink, kit.Pick(g.rng, []string{"target", "../up/and/over", "/abs/olute", "ünï", "./x", "dir/", "a//b", "sub/../file", "./", "a/./b/"}), 0o777
 	default:
 		n.Type = data.NodeTypeFile
 		k := kit.Pick(g.rng, []int{0, 1, 1, 2, 3, 5, 9})
